@@ -246,6 +246,48 @@ theorem batch_encode_decode (hca : Canonical pa) (hcu : Canonical pu) {b : Bytes
     unfold encodeBatch
     rw [txs_encode_decode pa pu hca hcu h, ← batch_canon hv]; exact hb.symm
 
+/-- decoding the Txs / Transactions field built from well-formed transactions -/
+theorem txs_decode_encode (hpa : Complete pa) (hpu : Complete pu) (txs : List (Tx A Au))
+    (h : ∀ t ∈ txs, TxOK pa pu t) : decodeTxs pa pu (txs.map (encodeTx pa pu)) = some txs := by
+  unfold decodeTxs
+  apply mapM?_map_mem
+  intro t ht
+  have hne : (encodeTx pa pu t).isEmpty = false := by
+    cases he : encodeTx pa pu t with
+    | nil => exact absurd he (h t ht).nonempty
+    | cons _ _ => rfl
+  simp only [hne]
+  exact decode_encode pa pu hpa hpu t (h t ht).ts (h t ht).chainID (h t ht).maxFee (h t ht).actions (h t ht).auth
+
+theorem txs_sizes (txs : List (Tx A Au)) (h : ∀ t ∈ txs, TxOK pa pu t) :
+    ∀ e ∈ txs.map (encodeTx pa pu), e.length < 2 ^ 64 := by
+  intro e he
+  obtain ⟨t, ht, rfl⟩ := List.mem_map.mp he
+  exact (h t ht).size
+
+/-- **batch_decode_encode**: a batch of well-formed transactions with non-empty encodings
+decodes from its encoding to the same list. -/
+theorem batch_decode_encode (hpa : Complete pa) (hpu : Complete pu) (txs : List (Tx A Au))
+    (h : ∀ t ∈ txs, TxOK pa pu t) : decodeBatch pa pu (encodeBatch pa pu txs) = some txs := by
+  unfold decodeBatch encodeBatch
+  rw [decode_complete batchSpec_ok (listMsg_valid batchSpec (f := 1) rfl _ (txs_sizes pa pu txs h))]
+  simp only [listMsg_get, txs_decode_encode pa pu hpa hpu txs h]
+
+/-- **block_decode_encode**: a block value with well-formed fixed-size fields, uint64 P-chain
+height (0 = no context) and well-formed transactions decodes from its encoding to itself. -/
+theorem block_decode_encode (hpa : Complete pa) (hpu : Complete pu) (blk : Block A Au)
+    (hp : blk.prnt.length = 32) (ht : blk.tmstmp.length = 8) (hh : blk.hght.length = 8)
+    (hr : blk.stateRoot.length = 32) (hc : blk.pChainHeight < 2 ^ 64) (htx : ∀ t ∈ blk.txs, TxOK pa pu t) :
+    decodeBlock pa pu (encodeBlock pa pu blk) = some blk := by
+  obtain ⟨c1, c2, c3⟩ := ctx_decode_encode hc
+  have hv := blockMsg_valid blk.prnt blk.tmstmp blk.hght (encodeCtx blk.pChainHeight)
+    (blk.txs.map (encodeTx pa pu)) blk.stateRoot hp ht hh c3 (txs_sizes pa pu blk.txs htx) hr
+  obtain ⟨g1, g2, g3, g4, g5, g6⟩ := blockMsg_get blk.prnt blk.tmstmp blk.hght (encodeCtx blk.pChainHeight)
+    (blk.txs.map (encodeTx pa pu)) blk.stateRoot hp ht hh hr
+  unfold decodeBlock encodeBlock
+  rw [decode_complete blockSpec_ok hv]
+  simp only [g1, g2, g3, g4, g5, g6, c1, c2, txs_decode_encode pa pu hpa hpu blk.txs htx]
+
 end tx
 
 /-! ## results -/
@@ -281,6 +323,27 @@ theorem results_encode_decode {b : Bytes} {e : ExecResults} (h : decodeExecResul
       unfold encodeExecResults
       simp only [mapM?_map (fun _ _ h => result_encode_decode h) _ _ hr]
       rw [← execResults_canon hv]; exact hb.symm
+
+/-- **result_decode_encode** (value level): a `Result` with well-formed fields decodes from its
+encoding to itself. -/
+theorem result_decode_encode (r : Result) (h : ResultOK r) : decodeResult (encodeResult r) = some r :=
+  result_dec r h.error h.outputs h.units h.fee
+
+/-- **results_decode_encode** (value level) for `ExecutionResults` (a nil entry is the all-zero
+`Result`). -/
+theorem results_decode_encode (e : ExecResults) (hr : ∀ r ∈ e.results, ResultOK r)
+    (hp : e.unitPrices.length = 40) (hc : e.unitsConsumed.length = 40) :
+    decodeExecResults (encodeExecResults e) = some e := by
+  have hl : ∀ x ∈ e.results.map encodeResult, x.length < 2 ^ 64 := by
+    intro x hx
+    obtain ⟨r, hr', rfl⟩ := List.mem_map.mp hx
+    exact (hr r hr').size
+  obtain ⟨g1, g2, g3⟩ := execResultsMsg_get (e.results.map encodeResult) e.unitPrices e.unitsConsumed hp hc
+  unfold decodeExecResults encodeExecResults
+  rw [decode_complete execResultsSpec_ok (execResultsMsg_valid _ _ _ hl hp hc)]
+  have hm : mapM? decodeResult (e.results.map encodeResult) = some e.results :=
+    mapM?_map_mem _ (fun r hr' => result_decode_encode r (hr r hr'))
+  simp only [g1, g2, g3, hm]
 
 theorem optEnc_optDec {α} {enc : α → Bytes} {dec : Bytes → Option α}
     (hed : ∀ b a, dec b = some a → enc a = b) {b : Bytes} {o : Option α}
